@@ -40,7 +40,30 @@ NEEDS = {
  "C19-overused-constant-name-collision": "the module already binds PYREFACT_OVERUSED_CONSTANT_0 (output of an earlier run) and gains a new overused literal at module level that gets a numbered name: second constant gets the same name. NOTE: harmless since fix 47f9edd (names are checked after the convention is applied); evaluated against the parent commit 47f9edd~1",
  "C20-skip-file-after-whitespace-normalisation": "a file with '# pyrefact: skip_file' that contains a tab, trailing blanks, >= 3 blank lines or blank lines at EOF: returned whitespace-normalised instead of byte-for-byte",
  "C20-ignore-on-closing-line": "the ignore comment is on the CLOSING line of a multi-line range a rule rewrites or removes (']) # pyrefact: ignore', last line of an if/else replaced by remove_dead_ifs)",
+
+ # wave 3
+ "C01-breaks-out-of-skips-handlers": "a 'while True:' / 'while 1:' loop whose every break sits in an except handler or a match case (one ordinary break elsewhere hides it) + something observable after the loop: the loop is taken for endless and the code after it is deleted",
+ "C02-inline-math-reads-only-store": "module level; w = [<comprehension over a>] used exactly once as the only argument of sum()/len(), and between the two an in-place mutation of a (a.append, a[0] = .., del a[0]) that does not rebind the name",
+ "C03-import-inserted-at-header-start": "a module that needs a guessed import (os, np, functools ...) whose last header statement (docstring as adjacent literals in parentheses, parenthesised 'from __future__ import (...)') spans several lines: the import is inserted inside the parentheses",
+ "C04-evaluation-errors-narrowed-lookup": "a side-effect-free constant expression raising IndexError / KeyError / LookupError / StopIteration / RuntimeError ('{} {}'.format('a'), '%(a)s' % {}, 'a'.encode('nope'), next(iter(()))) in a position whose constant value a rule asks for (if / while / ternary test, and/or operand, for iterable): format_code raises",
+ "C05-fix-history-hoisted": "a processing.fix rule that needs more than one internal iteration on X (X -> X1 -> X2) AND an earlier call in the same process that gave the same rule exactly X1 (e.g. an older version of the file); visible through format_code only for rules that run outside the fixpoint loops",
+ "C06-original-spelling-counter-over-set": "one string value spelled in >= 2 non-canonical ways in the file (u'utf-8' and \"\"\"utf-8\"\"\") inside code that a rewrite regenerates, compared across processes with different PYTHONHASHSEED",
+ "C07-unreachable-walk-yields-module": "safe=True and a module-level statement that cannot be passed (raise, assert False, while True without break, if/else that both raise) followed by top-level definitions: they are deleted as unreachable",
+ "C08-preserve-union-minus-own-names": "format_files / CLI with the refactored file itself among the preserved files ('pyrefact pkg/lib.py --preserve pkg'), a name the client uses that the library also mentions as an attribute or imported name, and a rule that touches the name once it is unpreserved",
+ "C09-first-loop-module-pass-budget": "an input whose clean-up needs more than 25 passes at one layer per pass (a chain of >= 26 dead assignments a0 = ..; a1 = a0 * 2; ...): still changing after 5 applications",
+ "C10-ignore-check-on-transaction-span": "a transaction of >= 2 rewrites with an explicit number and an ignore-commented line strictly BETWEEN two of them that no rewrite touches: the whole transaction is dropped",
+ "C11-elif-prefix-word-boundary": "a module-level statement whose text starts with an identifier beginning with 'elif' (elif_histogram = ..., elifs = [...]) through the line-wrapping stage: written back as if_histogram",
+ "C12-walk-wildcard-tuple-tried-not-yielded": "a tuple of alternative patterns with the same root node type passed to finditer/findall/sub, and a node that fails an earlier alternative but matches a later one: occurrence missed",
+ "C13-match-via-search": "match() on a source where the occurrence at the very start is not the first one in the breadth-first walk (foo.bar(foo), x.y = 1\\nx): returns None",
+ "C14-range-overlaps-touching": "a line carrying an ignore comment and a match on the line directly below it that starts at column 0: silently not rewritten (touching ranges count as overlapping)",
+ "C15-evaluation-errors-narrowed": "next() without default on a one-shot iterator over an empty literal (next(iter([])), next(zip())) or a bare super() in a folded position: StopIteration / RuntimeError escapes literal_value and crashes format_code",
+ "C16-for-over-empty-lazy-iterator": "a for loop over a constant-foldable EMPTY LAZY iterator (enumerate(()), zip((1,2),()), reversed(()), iter(()), filter(None,(0,))) with a return / raise in the body: treated as impassable, the code after it is deleted",
+ "C17-negate-chained-comparison": "a chained comparison (0 < x < 5) as the test (or and/or operand) of an if that swap_if_else or early_continue negates: the second link is dropped (0 >= x)",
+ "C18-dotted-import-root-name-guard": "a non-module-level un-aliased dotted import (import os.path) of a movable module whose ROOT name is bound otherwise in the module (parameter os=None, global os = ..., def os): hoisted to module level, the name resolves to the other object",
+ "C19-declared-names-defs-renamed": "a name bound by def / async def / class that breaks its convention AND appears in a global / nonlocal statement: the definition is renamed, the declaration and the uses are not",
+ "C20-ignore-bisect-closing-line": "a multi-line range whose last character is the first character of its last line (closing bracket alone in column 0) with the ignore comment on that closing line: the line is rewritten or deleted",
 }
+WAVE3 = {n for n in NEEDS if list(NEEDS).index(n) >= list(NEEDS).index("C01-breaks-out-of-skips-handlers")}
 for name in sorted(os.listdir(os.path.join(HERE, "seeded"))):
     d = os.path.join(HERE, "seeded", name)
     if not os.path.isdir(d):
@@ -54,6 +77,7 @@ for name in sorted(os.listdir(os.path.join(HERE, "seeded"))):
     meta = {
         "property": name[:3],
         "written_by": "independent sub-agent (given only the property text and a scratch worktree)",
+        "wave": 3 if os.path.exists(os.path.join(d, "result_first_run.txt")) and name in WAVE3 else None,
         "needs_to_manifest": NEEDS.get(name, "see NOTES.md"),
         "confirmed_by_me": "tools/verify_seed.sh: demo exits 0 on the clean worktree, 58 pinned tests pass with the change, demo exits 1 with the change",
         "checks_run_against_it": runs,
